@@ -75,7 +75,7 @@ InjAnswers(h, s, d, ttl, addr) ==
     \E i \in DOMAIN d : \E j \in DOMAIN s :
         /\ IsInj(h, d[i]) /\ s[j].ttl = ttl /\ PktOf(h, d[i]).src = addr
         /\ \/ Answers(V(h), h.par.strict, s[j].p, PktOf(h, d[i]))
-           \/ IsSYNv(V(h)) /\ \E k \in 1..j : Direct(V(h), s[k].p, PktOf(h, d[i]))
+           \/ Caveat(V(h), PktOf(h, d[i])) /\ \E k \in 1..j : Direct(V(h), s[k].p, PktOf(h, d[i]))
 C09_twin(h, s, d) ==
     LET a == h.out.hops  b == h.twin.hops
         m == IF Len(a) < Len(b) THEN Len(a) ELSE Len(b)
@@ -111,7 +111,8 @@ C12_twin(h, s) ==
 \* is property p applicable to the finished scenario h / does it hold (evaluated lazily, only when applicable)
 App(p, h) ==
     LET s == snt1(h)  ok == h.out.ok IN
-    CASE h.out.set /\ h.par.entry = "lab" -> p = "C13"
+    CASE h.out.set /\ h.par.entry = "crash" -> p \in {"C09", "C10", "C19"}     \* the process died (panic in a goroutine of the code)
+      [] h.out.set /\ h.par.entry = "lab" -> p = "C13"
       [] h.out.set /\ h.par.entry = "doc" -> p \in {"C16", "C17", "C18"}
       [] h.out.set /\ h.par.entry = "cache" -> p = "C18"
       [] h.out.set /\ h.par.entry = "pubip" -> p = "C18" \/ p = "C08"
@@ -132,7 +133,8 @@ App(p, h) ==
 
 Holds(p, h) ==
     LET s == snt1(h)  d == dl1(h)  hp == h.out.hops IN
-    CASE h.par.entry = "lab" -> C13_lab(h)
+    CASE h.par.entry = "crash" -> FALSE
+      [] h.par.entry = "lab" -> C13_lab(h)
       [] h.par.entry = "doc" -> (CASE p = "C16" -> C16_json(h.out) /\ Conforms(h.par.docin, h.out.doc)
                                    [] p = "C17" -> h.out.panic = "" /\ C17_json(h.par.docin, h.out)
                                    [] p = "C18" -> C18_json(h.par.docin, h.out) [] OTHER -> TRUE)
@@ -163,7 +165,7 @@ Report ==
         (Wants(p) /\ App(p, hm) /\ ~Holds(p, hm)) => PrintT(<<"L1", p, H.scen, l>>)
 
 \* L2: the design's prediction equals the real output (fault-free, uncancelled, filter-free wire runs)
-L2App(h) == WireRun(h) /\ Len(snt1(h)) >= 1 /\ Len(h.flt) = 0 /\ h.cancel < 0 /\ h.out.panic = ""
+L2App(h) == h.par.entry # "crash" /\ WireRun(h) /\ Len(snt1(h)) >= 1 /\ Len(h.flt) = 0 /\ h.cancel < 0 /\ h.out.panic = ""
 Drift ==
     (H.out.set /\ Wants("L2")) =>
       LET hm == Mat(H) IN
